@@ -53,3 +53,64 @@ def repo_head() -> str:
         return subprocess.run(["git", "-C", REPO, "rev-parse", "--short", "HEAD"], capture_output=True, text=True).stdout.strip()
     except Exception:
         return "?"
+
+
+def _registries():
+    import apischema.aliases as al
+    import apischema.conversions.converters as cv
+    import apischema.dependencies as dp
+    import apischema.discriminators as ds
+    import apischema.objects.fields as of
+    import apischema.ordering as od
+    import apischema.schemas as sc
+    import apischema.serialization.serialized_methods as sm
+    import apischema.type_names as tn
+    import apischema.validation.validators as vv
+
+    regs = [al._class_aliasers, cv._deserializers, cv._serializers, dp._dependent_requireds, ds._discriminators, of._class_fields,
+            od._order_overriding, sc._schemas, sm._serialized_methods, tn._type_names, vv._validators]
+    try:
+        import apischema.graphql.resolvers as gr
+
+        regs.append(gr._resolvers)
+    except Exception:
+        pass
+    return [getattr(r, "wrapped", r) for r in regs]
+
+
+def purge_module(mod_name: str):
+    """forget every registry entry keyed by a class / function of a generated module (the registries
+    are default-dicts that grow with every class ever visited; with classes hashing by name — E3 —
+    the collisions make every lookup linear in the number of dead classes)"""
+    import apischema.validation.dependencies as vd
+
+    def mine(k):
+        if getattr(k, "__module__", None) == mod_name:
+            return True
+        if getattr(k, "__module__", None) == "typing" or isinstance(k, tuple):  # Optional[vfgen_3.Node], ...
+            try:
+                return (mod_name + ".") in repr(k)
+            except Exception:
+                return False
+        return False
+
+    for reg in _registries():
+        for k in [k for k in list(reg) if mine(k)]:
+            try:
+                del reg[k]
+            except Exception:
+                pass
+    for k in [k for k in list(vd.cache) if mine(k)]:
+        vd.cache.pop(k, None)
+    # per-factory lru caches that apischema.cache.reset() does not know about (bounded, but they pin
+    # up to 128 dead generated classes each)
+    import apischema.deserialization as _d
+
+    for owner in (_d.DeserializationMethodFactory,):
+        for v in list(vars(owner).values()):
+            cc = getattr(v, "cache_clear", None)
+            if cc is not None:
+                try:
+                    cc()
+                except Exception:
+                    pass
